@@ -570,6 +570,9 @@ func runBGPView(b vfBGPView, tr *vw.Trace) *vw.Violation {
 	if b.Loose {
 		tr.Class("loose-domain")
 		// implications that hold under either reading of "an address on several nodes"
+		if announce && !eCluster {
+			return vw.Violationf("bgp-announce-without-ready-address", "node %s announces (policy local=%v) although no endpoint address is ready: every address has an entry that is neither ready nor serving", me.Name, v.Local)
+		}
 		if announce && !(nodeOK && anyServing && (!v.Local || anyServingOnMe)) {
 			return vw.Violationf("bgp-announce-without-eligibility", "node %s announces (policy local=%v) although nodeOK=%v, serving endpoints=%v, serving on this node=%v", me.Name, v.Local, nodeOK, anyServing, anyServingOnMe)
 		}
